@@ -11,6 +11,7 @@ events is meaningful. Call events are written before invoking, return events aft
 """
 
 import faulthandler
+import functools
 import json
 import os
 import queue as pyqueue
@@ -49,12 +50,17 @@ class State:
     window_armed = set()
     empties_after_all_dead = 0
     stale = 0
+    created = 0  # Process objects created so far (= number of the next worker)
 
 
 def item_id(obj):
     if obj is None:
         return "sentinel"
-    return getattr(obj, "priority", repr(obj)[:20])
+    pr = getattr(obj, "priority", None)
+    if isinstance(pr, int):
+        return pr
+    import hashlib
+    return "h" + hashlib.sha1(repr(obj).encode()).hexdigest()[:12]  # the message type is gaftools' own business
 
 
 def install(plan):
@@ -123,7 +129,13 @@ def install(plan):
     class _MPShim:
         """stands in for the `mp` name inside gaftools.cli.realign: Process / Queue are the traced
         ones, every other name (current_process, cpu_count, ...) is multiprocessing's own"""
-        Process = staticmethod(ctxmp.Process)
+        @staticmethod
+        def Process(*a, **k):
+            idx = State.created
+            State.created += 1
+            if k.get("target") is wfa_wrapper:
+                k["target"] = functools.partial(wfa_wrapper, _widx=idx)
+            return ctxmp.Process(*a, **k)
 
         @staticmethod
         def Queue(*a, **k):
@@ -182,11 +194,14 @@ def install(plan):
             self.qu.put(obj)
             log("put_ret", w=self.w, id=item_id(obj))
 
-    def wfa_wrapper(seq_batch, qu):
+    def wfa_wrapper(seq_batch, qu, _widx=None):
         global ROLE
         ROLE = "worker"
-        w = seq_batch[0][3] // batch
-        log("worker_start", w=w, first=seq_batch[0][3], n=len(seq_batch))
+        # worker number = creation order of its Process (see _MPShim.Process); the layout of the batch
+        # items is gaftools' own business
+        first = seq_batch[0][3] if len(seq_batch[0]) > 3 and isinstance(seq_batch[0][3], int) else None
+        w = _widx if _widx is not None else (first // batch if first is not None else 0)
+        log("worker_start", w=w, first=first, n=len(seq_batch))
         proxy = QProxy(qu, w, len(seq_batch))
         orig_wfa(seq_batch, proxy)
         for fault in faults:
